@@ -39,6 +39,7 @@ typedef std::vector<uint8_t> Bytes;
 // ---- allocation fill pattern (C20): every fresh operator-new block is filled with VERIF_FILL before use ----
 static unsigned char g_fillPat[16];
 static size_t g_fillLen = 0;
+#ifndef VERIF_NO_NEW_OVERRIDE   // the valgrind build keeps the standard allocator (memcheck pairs new/delete itself)
 void* operator new(size_t n)
 {
     void* p = malloc(n ? n : 1);
@@ -60,6 +61,7 @@ void operator delete(void* p, size_t) noexcept
 {
     free(p);
 }
+#endif
 
 static const char* HEX = "0123456789abcdef";
 static std::string hex(const uint8_t* p, size_t n)
@@ -749,13 +751,13 @@ struct World
                 {
                     // strings are handed over as views over exact-size heap blocks WITHOUT a terminator behind them (a string_view
                     // promises none): reading data()[size()] is a heap-buffer-overflow under ASan
-                    std::vector<std::unique_ptr<char[]>> keep;
+                    std::vector<std::vector<char>> keep;
+                    keep.reserve(4);
                     auto sv = [&](size_t i) {
                         const Bytes& src = B(i);
-                        keep.emplace_back(new char[src.size() ? src.size() : 1]);
-                        if (src.size())
-                            memcpy(keep.back().get(), src.data(), src.size());
-                        return std::string_view(keep.back().get(), src.size());
+                        keep.emplace_back(src.begin(), src.end());
+                        keep.back().shrink_to_fit();
+                        return std::string_view(keep.back().data() ? keep.back().data() : "", src.size());
                     };
                     std::string_view s0 = sv(0), s1 = sv(1), s2 = sv(2), s3 = sv(3);
                     static_cast<CaptureModulePayload*>(b)->setData(s0, s1, s2, s3, B(4));
